@@ -47,6 +47,9 @@ def run(report, tier, seed):
         streamcorr.reader_corr(report, sd, lean, rng, [10, 11, 16, 64], 25 if quick else 1500, 7, bad, truncate="all")
         sd.close()
         _witnesses(report, sc, lean)
+        # the NDJSON format: every byte cut through the generated NDJSON readers of both languages
+        from checks import c16_ndjson
+        c16_ndjson.ndjson_cuts(report, sc, ybin, lean, seed, quick)
         # (2) generated readers
         gens = [(i, modelgen.Gen(seed * 100019 + i)) for i in range(1 if quick else 20)]
         labs = codeclab.prepare_labs(sc, ybin, gens, ndjson=False, sanitize=not quick)
